@@ -102,3 +102,30 @@ package objects
 //@   loop 1 decreases n - i
 //@   loop 2 invariant iter <= len(columns) && len(columns) > 0 && forall(m, 0, iter, cmp3(cell(b, columns[m]), cell(c, columns[m])) == 0)
 //@   loop 2 decreases len(columns) - iter
+
+// Persistence helpers: an object is stored under <kind prefix> ++ <16-byte checksum of its content> and nothing else enters
+// the key; the stored value is the content (for blocks and block indices: its compression). The callers' view of these
+// functions (ghost sets keyed by checksum id) is in /verif/spec/store.spec.
+//@ func saveObj
+//@   props C02 C06
+//@   requires s != nil && len(v) <= 1099511627776
+//@   modifies nothing
+//@   callsite Store.Set: bytesEq(arg0, k) && bytesEq(arg1, v)
+
+//@ func SaveTable
+//@   props C02 C06
+//@   requires s != nil && len(content) <= 1099511627776 && cap(tblPrefix) < len(tblPrefix) + 16
+//@   callsite saveObj: len(k) == len(tblPrefix) + 16 && bytesAt(k, 0, tblPrefix) && sid(k[len(tblPrefix):]) == hashid(content) && v == content
+//@   ensures err == nil ==> len(sum) == 16 && sid(sum) == hashid(content)
+
+//@ func SaveCommit
+//@   props C02 C06
+//@   requires s != nil && len(content) <= 1099511627776 && cap(comPrefix) < len(comPrefix) + 16
+//@   callsite saveObj: len(k) == len(comPrefix) + 16 && bytesAt(k, 0, comPrefix) && sid(k[len(comPrefix):]) == hashid(content) && v == content
+//@   ensures err == nil ==> len(sum) == 16 && sid(sum) == hashid(content)
+
+//@ func SaveCompressedBlock
+//@   props C02 C06
+//@   requires s != nil && len(compressed) <= 1099511627776 && cap(blkPrefix) < len(blkPrefix) + 16
+//@   callsite saveObj: len(k) == len(blkPrefix) + 16 && bytesAt(k, 0, blkPrefix) && sid(k[len(blkPrefix):]) == hashid(content) && v == compressed
+//@   ensures err == nil ==> len(sum) == 16 && sid(sum) == hashid(content)
